@@ -1,10 +1,10 @@
 #!/bin/sh
 # tools/import_seeds.sh c13  -> copies /tmp/seed_c13/seeds/C13-*/ into seeded/ and removes the scratch worktree
 for b in "$@"; do
-  for d in /tmp/seed_$b/seeds/C*-*/ /tmp/seed2_$b/seeds/C*-*/; do
+  for d in /tmp/seed_$b/seeds/C*-*/ /tmp/seed2_$b/seeds/C*-*/ /tmp/seed3_$b/seeds/C*-*/; do
     [ -d "$d" ] || continue
     n=$(basename "$d"); mkdir -p seeded/$n; cp "$d"patch.diff "$d"demo.py "$d"meta.json seeded/$n/ 2>/dev/null
     echo imported $n
   done
-  git -C /repo worktree remove --force /tmp/seed_$b 2>/dev/null; rm -rf /tmp/seed_$b; git -C /repo worktree remove --force /tmp/seed2_$b 2>/dev/null; rm -rf /tmp/seed2_$b
+  git -C /repo worktree remove --force /tmp/seed_$b 2>/dev/null; rm -rf /tmp/seed_$b; git -C /repo worktree remove --force /tmp/seed2_$b 2>/dev/null; rm -rf /tmp/seed2_$b; git -C /repo worktree remove --force /tmp/seed3_$b 2>/dev/null; rm -rf /tmp/seed3_$b
 done
